@@ -27,6 +27,28 @@
 //! labels       : `-` path did not exist before; `X` outside root; `B` inside a bucket;
 //!                `O.<hex bucket>.<hex key>[.<hex uuid>]` bookkeeping of that object [of that upload];
 //!                `U.<hex uuid>` bookkeeping of that upload
+//!
+//! ## system-call observation (component `fspathsys`, selected by `S3V_FSPATH_SYS=1`)
+//!
+//! The same cases, but the backend runs in a second process (`h_fspath opserver`, started as
+//! `strace -f --seccomp-bpf -y -xx -e trace=%file,getdents64,getdents -o <work>/tmp-…/trace.txt h_fspath opserver`) that does
+//! nothing but construct the `FileSystem` and run the operation; fixture set-up and the snapshot walks stay in this
+//! (untraced) process, so that every path-taking system call of the traced process between the markers belongs to the backend.
+//! The server brackets each request with marker system calls (`stat` of `/S3V-MARK/b` before the construction,
+//! `/S3V-MARK/n` between construction and operation, `/S3V-MARK/e` after the operation's future has completed and the
+//! backend was dropped); strace writes its log line by line, this process reads it up to the end marker after each reply.
+//! All threads are followed (`-f`: tokio runs file operations on its blocking pool); a system call is taken at its ENTRY
+//! (complete or `<unfinished ...>` line), whether it succeeds or not: an attempt is an access.
+//! One more output field `sys`: `,`-joined `<phase><kind>:<path>`, phase `n` (construction) or `o` (operation), kind
+//! `r` (stat/lstat/statx/access/readlink/open for reading/…), `l` (open with O_DIRECTORY, getdents), `c` (a call that can only
+//! bring a node into existence and fails if it exists: mkdir, mknod, symlink, link target, open with O_CREAT|O_EXCL), `w` (open
+//! for writing or with O_CREAT/O_TRUNC/O_APPEND, rename target, chmod/chown/utimes/truncate/xattr writes, any path-taking call
+//! not in the table), `d` (unlink, rmdir, unlinkat, rename source); path = `@<hex>` relative to `outer`
+//! (`@` = `outer` itself) or `<hex>` absolute, textually as passed (relative paths and `dirfd`s are joined with the
+//! directory `strace -y` prints; no `.`/`..` resolution here — the driver's spec does that); duplicates removed, order kept.
+//! Two kinds of line are not accesses (rules `getcwd`, `fstat`): `getcwd` (the kernel returns the working directory as a string)
+//! and `newfstatat`/`statx` on a bare descriptor with `AT_EMPTY_PATH` (the file is already open: the access is that `open`).
+//! Nothing else is filtered here: what an access means is decided by the driver's spec and model.
 
 use bytes::Bytes;
 use futures::StreamExt;
@@ -183,6 +205,7 @@ struct World {
     labels: BTreeMap<String, String>,
     snap: Option<Snap>,
     rt: tokio::runtime::Runtime,
+    server: Option<SysServer>,
 }
 
 impl World {
@@ -208,7 +231,7 @@ impl World {
             labels.insert(lf.rel.clone(), lf.label.clone());
         }
         let rt = tokio::runtime::Builder::new_current_thread().enable_all().build().expect("runtime");
-        World { base, outer, files, by_hash, by_size, labels, snap: None, rt }
+        World { base, outer, files, by_hash, by_size, labels, snap: None, rt, server: None }
     }
 
     fn rebuild(&mut self) {
@@ -553,7 +576,381 @@ async fn run_http(fs: FileSystem, i: &In) -> Outcome {
     o
 }
 
+fn exec_op(rt: &tokio::runtime::Runtime, fs: FileSystem, input: &In) -> Outcome {
+    if input.op.starts_with("http_") {
+        rt.block_on(run_http(fs, input))
+    } else {
+        let o = rt.block_on(run_op(&fs, input));
+        drop(fs);
+        o
+    }
+}
+
+// ------------------------------------------------------------------------------------------------------------------
+// system-call observation (see the module documentation)
+
+fn sys_mode() -> bool {
+    std::env::var("S3V_FSPATH_SYS").is_ok_and(|v| v == "1")
+}
+
+const MARK: &str = "/S3V-MARK/";
+
+/// the marker system call: `statx`/`newfstatat` of a path that does not exist
+fn mark(what: &str) {
+    let _ = std::fs::metadata(format!("{MARK}{what}"));
+}
+
+fn ser_outcome(o: &Outcome) -> String {
+    let nums = |v: &[u64]| v.iter().map(u64::to_string).collect::<Vec<_>>().join(",");
+    let strs = |v: &[String]| v.iter().map(|t| hex(t.as_bytes())).collect::<Vec<_>>().join(",");
+    format!(
+        "{}\t{}\t{}\t{}\t{}\t{}",
+        o.code,
+        nums(&o.sizes),
+        nums(&o.hashes),
+        strs(&o.tags),
+        strs(&o.names),
+        opt_hex(o.upload_id.as_deref().map(str::as_bytes))
+    )
+}
+
+fn de_outcome(line: &str) -> Option<Outcome> {
+    let f: Vec<&str> = line.split('\t').collect();
+    if f.len() != 6 {
+        return None;
+    }
+    let nums = |s: &str| -> Vec<u64> { s.split(',').filter(|x| !x.is_empty()).filter_map(|x| x.parse().ok()).collect() };
+    let strs = |s: &str| -> Vec<String> {
+        s.split(',').filter(|x| !x.is_empty()).filter_map(|x| s3vh::unhex(x)).map(|b| String::from_utf8_lossy(&b).into_owned()).collect()
+    };
+    Some(Outcome {
+        code: f[0].to_owned(),
+        sizes: nums(f[1]),
+        hashes: nums(f[2]),
+        tags: strs(f[3]),
+        names: strs(f[4]),
+        upload_id: un_opt_hex(f[5]).flatten().map(|b| String::from_utf8_lossy(&b).into_owned()),
+    })
+}
+
+/// the traced process: one request per line (`<outer>` TAB the input fields of the case), one reply per line
+fn op_server() {
+    use std::io::{BufRead, Write};
+    std::panic::set_hook(Box::new(|_| {}));
+    let rt = tokio::runtime::Builder::new_current_thread().enable_all().build().expect("runtime");
+    let stdin = std::io::stdin();
+    let stdout = std::io::stdout();
+    // std probes once, after its first failing `statx`, whether the kernel has the call at all (`statx(0, NULL, …)`): get that
+    // over with before the first request
+    mark("warm-up");
+    for line in stdin.lock().lines() {
+        let Ok(line) = line else { break };
+        let fields: Vec<&str> = line.split('\t').collect();
+        let outer = fields[0].to_owned();
+        let f = &fields[1..];
+        let root = PathBuf::from(&outer).join("root");
+        let res = std::panic::catch_unwind(std::panic::AssertUnwindSafe(|| {
+            mark("b");
+            let fs = FileSystem::new(&root);
+            mark("n");
+            if f[0] == "fs_new" {
+                let mut o = Outcome::new();
+                o.code = if fs.is_ok() { "OK" } else { "ERR" }.to_owned();
+                drop(fs);
+                o
+            } else {
+                let input = parse_in(f, &outer);
+                exec_op(&rt, fs.expect("FileSystem::new"), &input)
+            }
+        }));
+        mark("e");
+        let reply = match res {
+            Ok(o) => ser_outcome(&o),
+            Err(_) => "PANIC".to_owned(),
+        };
+        let mut out = stdout.lock();
+        let _ = writeln!(out, "{reply}");
+        let _ = out.flush();
+    }
+}
+
+struct SysServer {
+    child: std::process::Child,
+    stdin: Option<std::process::ChildStdin>,
+    stdout: std::io::BufReader<std::process::ChildStdout>,
+    trace: std::fs::File,
+    pending: Vec<u8>,
+}
+
+impl SysServer {
+    fn start(base: &Path) -> SysServer {
+        use std::process::{Command, Stdio};
+        let trace_path = base.join("trace.txt");
+        std::fs::write(&trace_path, b"").expect("trace file");
+        let exe = std::env::current_exe().expect("own path");
+        let spawned = Command::new("strace")
+            .args(["-f", "-qq", "--seccomp-bpf", "-y", "-xx", "-s", "16384", "-e", "trace=%file,getdents64,getdents", "-e", "signal=none", "-o"])
+            .arg(&trace_path)
+            .arg(exe)
+            .arg("opserver")
+            .env_remove("S3V_FSPATH_SYS")
+            .stdin(Stdio::piped())
+            .stdout(Stdio::piped())
+            .spawn();
+        let mut child = match spawned {
+            Ok(c) => c,
+            Err(e) => {
+                eprintln!("h_fspath: cannot start strace ({e}): system-call observation is not possible here");
+                std::process::exit(4);
+            }
+        };
+        let stdin = child.stdin.take();
+        let stdout = std::io::BufReader::new(child.stdout.take().expect("server stdout"));
+        let trace = std::fs::File::open(&trace_path).expect("trace file");
+        SysServer { child, stdin, stdout, trace, pending: Vec::new() }
+    }
+
+    /// the trace lines up to (and including) the next end marker
+    fn read_until_end(&mut self) -> Vec<String> {
+        use std::io::Read;
+        let mut lines: Vec<String> = Vec::new();
+        let t0 = std::time::Instant::now();
+        let mut buf = vec![0u8; 1 << 16];
+        loop {
+            while let Some(pos) = self.pending.iter().position(|&b| b == b'\n') {
+                let line: Vec<u8> = self.pending.drain(..=pos).collect();
+                let text = String::from_utf8_lossy(&line[..line.len() - 1]).into_owned();
+                let is_end = matches!(parse_trace_line(&text, b""), Some(Ev::Marker(m)) if m == "e");
+                lines.push(text);
+                if is_end {
+                    return lines;
+                }
+            }
+            let n = self.trace.read(&mut buf).unwrap_or(0);
+            if n == 0 {
+                if t0.elapsed().as_secs() > 30 {
+                    eprintln!("h_fspath: the end marker of a request did not appear in the strace log (ptrace denied?)");
+                    std::process::exit(4);
+                }
+                std::thread::sleep(std::time::Duration::from_micros(100));
+            } else {
+                self.pending.extend_from_slice(&buf[..n]);
+            }
+        }
+    }
+}
+
+enum Ev {
+    Marker(String),
+    Access(Vec<(char, Vec<u8>)>),
+}
+
+enum Tok {
+    Str(Vec<u8>),
+    Fd(Vec<u8>),
+}
+
+/// `\xHH…` (what `strace -xx` prints inside `"…"` and `<…>`); `None` if anything else is in there
+fn unescape_xx(s: &str) -> Option<Vec<u8>> {
+    let b = s.as_bytes();
+    if b.len() % 4 != 0 {
+        return None;
+    }
+    let mut out = Vec::with_capacity(b.len() / 4);
+    for c in b.chunks(4) {
+        if c[0] != b'\\' || c[1] != b'x' {
+            return None;
+        }
+        out.push(u8::from_str_radix(std::str::from_utf8(&c[2..4]).ok()?, 16).ok()?);
+    }
+    Some(out)
+}
+
+/// one line of the strace log → the marker or the accesses it denotes (taken at system-call entry)
+fn parse_trace_line(line: &str, cwd: &[u8]) -> Option<Ev> {
+    let rest = line.trim_start_matches(|c: char| c.is_ascii_digit()).trim_start();
+    if rest.starts_with('<') || rest.starts_with('+') || rest.starts_with('-') {
+        return None; // `<... x resumed>`, `+++ exited +++`, `--- SIG… ---`
+    }
+    let open = rest.find('(')?;
+    let name = &rest[..open];
+    let args = &rest[open + 1..];
+    let mut toks: Vec<Tok> = Vec::new();
+    let ab = args.as_bytes();
+    let mut i = 0;
+    while i < ab.len() {
+        match ab[i] {
+            b'"' => {
+                let j = args[i + 1..].find('"').map_or(ab.len(), |k| i + 1 + k);
+                if let Some(v) = unescape_xx(&args[i + 1..j]) {
+                    toks.push(Tok::Str(v));
+                }
+                i = j + 1;
+            }
+            b'<' => {
+                let j = args[i + 1..].find('>').map_or(ab.len(), |k| i + 1 + k);
+                if j > i + 1 {
+                    if let Some(v) = unescape_xx(&args[i + 1..j]) {
+                        toks.push(Tok::Fd(v));
+                    }
+                }
+                i = j + 1;
+            }
+            _ => i += 1,
+        }
+    }
+    // path items: `dirfd, "path"` pairs, lone strings (relative to the CWD), lone descriptors
+    let join = |dir: &[u8], p: &[u8]| -> Vec<u8> {
+        if p.first() == Some(&b'/') {
+            p.to_vec()
+        } else if p.is_empty() {
+            dir.to_vec()
+        } else {
+            let mut v = dir.to_vec();
+            v.push(b'/');
+            v.extend_from_slice(p);
+            v
+        }
+    };
+    let mut items: Vec<Vec<u8>> = Vec::new();
+    let mut k = 0;
+    while k < toks.len() {
+        match (&toks[k], toks.get(k + 1)) {
+            (Tok::Fd(d), Some(Tok::Str(p))) => {
+                items.push(join(d, p));
+                k += 2;
+            }
+            (Tok::Fd(d), _) => {
+                items.push(d.clone());
+                k += 1;
+            }
+            (Tok::Str(p), _) => {
+                items.push(join(cwd, p));
+                k += 1;
+            }
+        }
+    }
+    if let Some(first) = items.first() {
+        if let Some(m) = first.strip_prefix(MARK.as_bytes()) {
+            return Some(Ev::Marker(String::from_utf8_lossy(m).into_owned()));
+        }
+    }
+    let has = |flag: &str| args.contains(flag);
+    // rule `getcwd`: the kernel hands out the process's working directory as a string; no file is accessed
+    // rule `fstat`: `newfstatat(fd, "", …, AT_EMPTY_PATH)` / `statx(fd, "", AT_EMPTY_PATH…)` concerns a file that is already open; the
+    // access is the `open` that produced the descriptor (recorded with its own kind)
+    if name == "getcwd" || (has("AT_EMPTY_PATH") && matches!((toks.first(), toks.get(1)), (Some(Tok::Fd(_)), Some(Tok::Str(p))) if p.is_empty())) {
+        return None;
+    }
+    let kinds: Vec<char> = match name {
+        "open" | "openat" | "openat2" | "creat" => {
+            if has("O_CREAT") && has("O_EXCL") {
+                vec!['c']
+            } else if name == "creat" || has("O_WRONLY") || has("O_RDWR") || has("O_CREAT") || has("O_TRUNC") || has("O_APPEND") {
+                vec!['w']
+            } else if has("O_DIRECTORY") {
+                vec!['l']
+            } else {
+                vec!['r']
+            }
+        }
+        "stat" | "lstat" | "newfstatat" | "fstatat64" | "statx" | "access" | "faccessat" | "faccessat2" | "readlink" | "readlinkat"
+        | "statfs" | "chdir" | "getxattr" | "lgetxattr" | "listxattr" | "llistxattr" | "execve" | "execveat" => vec!['r'],
+        "getdents" | "getdents64" => vec!['l'],
+        "unlink" | "rmdir" | "unlinkat" => vec!['d'],
+        "rename" | "renameat" | "renameat2" => vec!['d', 'w'],
+        "link" | "linkat" => vec!['r', 'c'],
+        "mkdir" | "mkdirat" | "mknod" | "mknodat" => vec!['c'],
+        "symlink" | "symlinkat" => {
+            // the first string is the link's content, not a path that is accessed
+            if !items.is_empty() {
+                items.remove(0);
+            }
+            vec!['c']
+        }
+        // chmod, chown, utimensat, truncate, setxattr, … and anything not listed: a write to every path named
+        _ => vec!['w'; items.len().max(1)],
+    };
+    let acc: Vec<(char, Vec<u8>)> = kinds.into_iter().zip(items).collect();
+    Some(Ev::Access(acc))
+}
+
+/// run the case in the traced process; the outcome (`None` = it panicked) and the `sys` field
+fn sys_request(w: &mut World, f: &[&str], outer: &str) -> (Option<Outcome>, String) {
+    use std::io::{BufRead, Write};
+    if w.server.is_none() {
+        w.server = Some(SysServer::start(&w.base));
+    }
+    let srv = w.server.as_mut().expect("server");
+    let mut reply = String::new();
+    {
+        let sin = srv.stdin.as_mut().expect("server stdin");
+        let _ = writeln!(sin, "{outer}\t{}", f.join("\t"));
+        let _ = sin.flush();
+    }
+    if srv.stdout.read_line(&mut reply).unwrap_or(0) == 0 {
+        eprintln!("h_fspath: the traced process went away");
+        std::process::exit(4);
+    }
+    let lines = srv.read_until_end();
+    let cwd = std::env::current_dir().map(|p| p.to_string_lossy().into_owned()).unwrap_or_default();
+    let mut phase: Option<char> = None;
+    let mut seen: std::collections::BTreeSet<String> = std::collections::BTreeSet::new();
+    let mut out: Vec<String> = Vec::new();
+    for line in &lines {
+        match parse_trace_line(line, cwd.as_bytes()) {
+            Some(Ev::Marker(m)) => {
+                phase = match m.as_str() {
+                    "b" => Some('n'),
+                    "n" => Some('o'),
+                    _ => None,
+                }
+            }
+            Some(Ev::Access(acc)) => {
+                let Some(ph) = phase else { continue };
+                for (kind, path) in acc {
+                    let ob = outer.as_bytes();
+                    let text = if path == ob {
+                        "@".to_owned()
+                    } else if path.len() > ob.len() && path.starts_with(ob) && path[ob.len()] == b'/' {
+                        format!("@{}", hex(&path[ob.len() + 1..]))
+                    } else {
+                        hex(&path)
+                    };
+                    let item = format!("{ph}{kind}:{text}");
+                    if seen.insert(item.clone()) {
+                        out.push(item);
+                    }
+                }
+            }
+            None => {}
+        }
+    }
+    let reply = reply.trim_end_matches('\n');
+    (if reply == "PANIC" { None } else { de_outcome(reply) }, out.join(","))
+}
+
+impl Drop for SysServer {
+    fn drop(&mut self) {
+        self.stdin.take(); // end of input: the server leaves, strace with it
+        let _ = self.child.wait();
+    }
+}
+
+
 fn generate(rng: &mut Rng, n: u64, tier: &str, emit: &mut dyn FnMut(Vec<String>)) {
+    // `fspathsys`, quick tier: every second case of the same stream (which half: by the seed), the traced process being
+    // about five times slower; thorough: all of them
+    let stride: u64 = if sys_mode() && tier != "thorough" { 2 } else { 1 };
+    let phase: u64 = std::env::var("VERIF_SEED").ok().and_then(|s| s.parse::<u64>().ok()).unwrap_or(1) % stride;
+    let mut index: u64 = 0;
+    let emit_all = emit;
+    let emit: &mut dyn FnMut(Vec<String>) = &mut |fields: Vec<String>| {
+        if index % stride == phase {
+            emit_all(fields);
+        }
+        index += 1;
+    };
     let look_meta_b = meta_name("bucket-b", "obj", None);
     let look_info_a = info_name("bucket-a", "obj");
     let up1 = format!(".upload-{U1}.json");
@@ -957,12 +1354,20 @@ fn evaluate_new(w: &mut World, f: &[&str]) -> Vec<String> {
     }
     let mut before = Snap::new();
     walk(&w.outer, "", &mut before);
-    let code = match FileSystem::new(&root) {
-        Ok(fs) => {
-            drop(fs);
-            "OK"
+    let mut sys = None;
+    let code = if sys_mode() {
+        let outer_s = w.outer.to_string_lossy().into_owned();
+        let (o, acc) = sys_request(w, f, &outer_s);
+        sys = Some(acc);
+        o.unwrap_or_else(|| panic!("the real code panicked (in the traced process)")).code
+    } else {
+        match FileSystem::new(&root) {
+            Ok(fs) => {
+                drop(fs);
+                "OK".to_owned()
+            }
+            Err(_) => "ERR".to_owned(),
         }
-        Err(_) => "ERR",
     };
     let mut after = Snap::new();
     walk(&w.outer, "", &mut after);
@@ -984,7 +1389,9 @@ fn evaluate_new(w: &mut World, f: &[&str]) -> Vec<String> {
     changed.sort();
     let outer_s = w.outer.to_string_lossy().into_owned();
     let cwd = std::env::current_dir().map(|p| p.to_string_lossy().into_owned()).unwrap_or_default();
-    vec![code.to_owned(), changed.join(","), String::new(), "-".to_owned(), hex(outer_s.as_bytes()), hex(cwd.as_bytes())]
+    let mut out = vec![code, changed.join(","), String::new(), "-".to_owned(), hex(outer_s.as_bytes()), hex(cwd.as_bytes())];
+    out.extend(sys);
+    out
 }
 
 fn evaluate(f: &[&str]) -> Vec<String> {
@@ -1001,13 +1408,12 @@ fn evaluate(f: &[&str]) -> Vec<String> {
     let outer_s = w.outer.to_string_lossy().into_owned();
     let input = parse_in(f, &outer_s);
     let root = w.outer.join("root");
-    let fs = FileSystem::new(&root).expect("FileSystem::new");
-    let o = if input.op.starts_with("http_") {
-        w.rt.block_on(run_http(fs, &input))
+    let (o, sys) = if sys_mode() {
+        let (o, sys) = sys_request(w, f, &outer_s);
+        (o.unwrap_or_else(|| panic!("the real code panicked (in the traced process)")), Some(sys))
     } else {
-        let o = w.rt.block_on(run_op(&fs, &input));
-        drop(fs);
-        o
+        let fs = FileSystem::new(&root).expect("FileSystem::new");
+        (exec_op(&w.rt, fs, &input), None)
     };
     let mut after = Snap::new();
     walk(&w.outer, "", &mut after);
@@ -1100,20 +1506,27 @@ fn evaluate(f: &[&str]) -> Vec<String> {
         w.snap = Some(before);
     }
     let cwd = std::env::current_dir().map(|p| p.to_string_lossy().into_owned()).unwrap_or_default();
-    vec![
+    let mut out = vec![
         o.code,
         changed.join(","),
         revealed.join(","),
         opt_hex(upload_id.as_deref().map(str::as_bytes)),
         hex(outer_s.as_bytes()),
         hex(cwd.as_bytes()),
-    ]
+    ];
+    out.extend(sys);
+    out
 }
 
 fn main() {
-    component_main("fspath", generate, evaluate);
+    if std::env::args().nth(1).as_deref() == Some("opserver") {
+        op_server();
+        return;
+    }
+    component_main(if sys_mode() { "fspathsys" } else { "fspath" }, generate, evaluate);
     let mut guard = WORLD.lock().unwrap_or_else(std::sync::PoisonError::into_inner);
-    if let Some(w) = guard.take() {
+    if let Some(mut w) = guard.take() {
+        drop(w.server.take());
         let _ = std::fs::remove_dir_all(&w.base);
     }
 }
